@@ -11,8 +11,11 @@ ASSUMPTIONS = [
     "rwcum_withdrawn_ / rwz_ are decoded as SIDE records and monitored: never negative, and no transaction may raise a matured claim "
     "rwcum_balance_ (claims grow in BeginBlock only)",
     "allowance of a block = the increase of the code's own accrual counter delegRwz_total_rewards in its BeginBlock (that the accrual "
-    "follows the reward schedule is C13); wrapped-currency mints/refunds at witness finality (C15) are not "
-    "exercised by the histories of this check; OLVM transactions (transfers, contract creations, failures) ARE in the scenarios and random "
+    "follows the reward schedule is C13); wrapped ETH: the supply counter (balance of TotalSupplyAddr) is a side record, the conserved quantity is the sum of the user "
+    "balances; per tracker (hash of the embedded transaction) the harness records the value of an accepted lock (go-ethereum decode) and "
+    "what an accepted redeem burnt (observed); an ETH_REPORT_FINALITY step that raises the ETH total gets exactly that pending amount of "
+    "its tracker as allowance, once ('refund of tracker T = amount burnt at T's creation'); when finality is reached is C15's; ERC20 / BTC "
+    "are not exercised; OLVM transactions (transfers, contract creations, failures) ARE in the scenarios and random "
     "histories and are judged by the monitors (keeper_ nonce records and contract code/storage hold no value; C17 proves their conservation)",
     "a state record the decoder does not recognise fails the check (never silently dropped)",
     "per-kind theorems are about the effect functions of LedgerTx.v (hand-written after the Go handlers, tied by the per-step "
